@@ -315,11 +315,104 @@ def _options_forwarded(ctx, rule):
     return c14.r13_options_forwarded(ctx, rule)
 
 
+def r14_walk_loop_exits(ctx, rule):
+    """'exactly N words are produced for --limit N': the loop of HoneywordSession.run that draws one walk per round is left only
+    when the limit is used up or the reader of the words has gone (OSError).  Any other way out ends the session short
+    (seed C16-o: a counter of walks that produced nothing - two Markov draws in a row are not a reason to stop)."""
+    q = HS + 'run'
+    fn = ctx.repo.fn(q)
+    mod = ctx.repo.modules[HSF]
+    ctx.stats['functions'].add(q)
+    loop = None
+    for n in walk_local(fn):
+        if isinstance(n, (ast.While, ast.For)) and any(isinstance(c, ast.Call) and (call_name(c) or '').endswith('random_walk')
+                                                      for c in ast.walk(n)):
+            loop = n        # innermost wins: walk_local is pre-order, later = deeper
+    if loop is None:
+        ctx.unk(rule, q, 'no loop around the call of random_walk found')
+        return
+    lim = [p for p in params(fn) if p != 'self']
+    derived = set(lim)
+    changed = True
+    while changed:
+        changed = False
+        for n in walk_local(fn):
+            if isinstance(n, (ast.Assign, ast.AugAssign, ast.AnnAssign)) and getattr(n, 'value', None) is not None:
+                tg = n.targets if isinstance(n, ast.Assign) else [n.target]
+                if any(isinstance(x, ast.Name) and x.id in derived for x in ast.walk(n.value)) \
+                        and not any(isinstance(x, ast.Call) and call_name(x) not in ('int', 'max', 'min', 'abs') for x in ast.walk(n.value)):
+                    for t in tg:
+                        if isinstance(t, ast.Name) and t.id not in derived:
+                            derived.add(t.id)
+                            changed = True
+
+    def mentions_limit(e):
+        return any(isinstance(x, ast.Name) and x.id in derived for x in ast.walk(e))
+
+    def innermost_loop(st):
+        for a in enclosing_stmt_chain(mod, st):
+            if isinstance(a, (ast.While, ast.For)):
+                return a
+        return None
+
+    def handler_of(st):
+        cur = st
+        while cur is not None and cur is not loop:
+            par = mod.parents.get(id(cur))
+            if isinstance(par, ast.ExceptHandler):
+                return par
+            cur = par
+        return None
+
+    benign_exc = {'OSError', 'IOError', 'EnvironmentError', 'BrokenPipeError', 'ConnectionError', 'KeyboardInterrupt'}
+    exits = []
+    if isinstance(loop, ast.While) and not (isinstance(loop.test, ast.Constant) and loop.test.value):
+        exits.append(('test', loop, [(loop.test, False)]))
+    elif isinstance(loop, ast.For):
+        exits.append(('test', loop, [(loop.iter, False)]))
+    for st in walk_stmts(loop.body):
+        if isinstance(st, ast.Break) and innermost_loop(st) is loop:
+            exits.append(('break', st, None))
+        elif isinstance(st, ast.Return):
+            exits.append(('return', st, None))
+    ok = True
+    n_lim = 0
+    for kind, st, conds in exits:
+        h = handler_of(st) if kind != 'test' else None
+        if h is not None:
+            names = set()
+            t = h.type
+            for e in (t.elts if isinstance(t, ast.Tuple) else [t] if t is not None else []):
+                names.add(U(e).split('.')[-1])
+            if names and names <= benign_exc:
+                continue
+            ok = False
+            ctx.unk(rule, q, 'the walk loop is left in a handler of %s - not a case this rule knows' % (sorted(names) or 'everything'))
+            continue
+        if conds is None:
+            conds = path_conditions(mod, st, stop=loop)
+        if any(mentions_limit(t) for t, _ in conds):
+            n_lim += 1
+            continue
+        ok = False
+        if kind == 'test':
+            ctx.unk(rule, q, 'the walk loop runs under ' + U(loop.test if isinstance(loop, ast.While) else loop.iter)[:80] + ', which does not mention the limit')
+        else:
+            ctx.bad(rule, q, '%s under %s' % (kind, ' and '.join(('' if pol else 'not ') + U(t)[:50] for t, pol in conds) or 'no condition'),
+                    'the walk loop is left for a reason that is neither the limit nor a closed pipe: fewer than --limit N words are produced',
+                    {'limit_names': sorted(derived)}, st, firm=True)
+    if ok:
+        if n_lim == 0:
+            ctx.unk(rule, q, 'no exit of the walk loop depends on the limit')
+        else:
+            ctx.ok(rule, q, 'the walk loop has %d exit(s): %d on the limit (%s), the rest in handlers of OSError' % (len(exits), n_lim, ', '.join(sorted(derived))))
+
+
 def rules(tier):
     return [('C16.R1', r1_walk_weights), ('C16.R2', r2_uniform_choice), ('C16.R3', r3_seeding), ('C16.R4', r4_limit),
             ('C16.R5', c01.r8_uniform_scale), ('C16.R6', _renorm), ('C16.R7', _loaders_read_only),
             ('C16.R8', c04.r12_output_point_total), ('C16.R9', _loader_complete),
-            ('C16.R10', _loader_strip), ('C16.R11', _mask_insertion), ('C16.R12', _flags_reach_grammar), ('C16.R13', _options_forwarded)]
+            ('C16.R10', _loader_strip), ('C16.R11', _mask_insertion), ('C16.R12', _flags_reach_grammar), ('C16.R13', _options_forwarded), ('C16.R14', r14_walk_loop_exits)]
 
 
 META = {
